@@ -428,6 +428,26 @@ fn check_style_against_manifest(
                 cx.wit(None, json!({"style": style, "document_version": v.text, "expected": expected_ops, "observed": seen_ops})),
             );
         }
+        // the document's own tag list: exactly the tags written on the declarations it
+        // documents (the generated programs define no tags through a TagConfig)
+        let listed: std::collections::BTreeSet<String> = doc["tags"]
+            .as_array()
+            .map(|a| a.iter().filter_map(|t| t["name"].as_str().map(|s| s.to_string())).collect())
+            .unwrap_or_default();
+        let written: std::collections::BTreeSet<String> = decls
+            .iter()
+            .filter(|d| d.versions.mrange().contains(v) && !d.is_unpublished())
+            .flat_map(|d| d.tags.iter().cloned())
+            .collect();
+        if listed != written {
+            rep.violate(
+                "C19:attribute-not-honoured:tags",
+                cx.wit(None, json!({"style": style, "where": "the document's top-level tag list", "document_version": v.text,
+                    "tags_written_on_documented_declarations": written, "tags_listed": listed})),
+            );
+        } else {
+            rep.count("document_tag_lists_checked", 1);
+        }
     }
 }
 
